@@ -811,7 +811,7 @@ def part_interop(ctx, res, J):
     ccfgs, scfgs = interop_matrix(ctx.tier)
     pairs = [(c, s) for c in ccfgs for s in scfgs]
     if ctx.tier == "quick":
-        pairs = [p for i, p in enumerate(pairs) if i % 5 == 0]
+        pairs = [p for i, p in enumerate(pairs) if i % 7 == 0]
     for c in ccfgs:
         c["offer_strings"] = [offer_string(o) for o in c.get("offers", [])]
     keys = [ctx.rng.randbytes(16).hex() for _ in pairs]
